@@ -64,6 +64,7 @@ func sameslice[T any](a, b []T) bool    { return len(a) == len(b) }
 func sliceeq[T comparable](a, b []T) bool { return len(a) == len(b) }
 func str(b []byte) string               { return string(b) }
 func typeis[T any](v any) bool          { _, ok := v.(T); return ok }
+func psum[T any](f func(T) Z, s []T, n int) Z { return 0 }
 `
 
 func load(repoDir string, pkgRel []string) (*Loaded, error) {
@@ -466,6 +467,43 @@ func generateSpecFile(p *packages.Package, pc *PkgContracts) (string, error) {
 			}
 			g.emitClause(c, prefix, ps)
 		}
+		// modifies entries: a function returning the base object of each entry
+		fc.modClauses = make([]*Clause, len(fc.Modifies))
+		for i, m := range fc.Modifies {
+			if m == "*" || m == "nothing" {
+				continue
+			}
+			base := m
+			switch {
+			case strings.HasSuffix(m, "[*]"):
+				base = strings.TrimSuffix(m, "[*]")
+			case strings.HasSuffix(m, ".*"):
+				base = strings.TrimSuffix(m, ".*")
+			default:
+				k := strings.LastIndex(m, ".")
+				if k < 0 {
+					return "", fmt.Errorf("%s: modifies entry %q: expected base.field, base.*, base[*] or *", pc.File, m)
+				}
+				base = m[:k]
+			}
+			tv, err := types.Eval(p.Fset, p.Types, body.Lbrace+1, base)
+			if err != nil {
+				return "", fmt.Errorf("%s: modifies entry %q: %v", pc.File, m, err)
+			}
+			c := &Clause{Kind: "modbase", Text: base, Line: fc.Line}
+			ps, err := g.clauseParams(base, fscope, body.Lbrace+1, sig, fmt.Sprintf("%s:%d", pc.File, fc.Line))
+			if err != nil {
+				return "", err
+			}
+			g.n++
+			c.FnSym = fmt.Sprintf("gcvMod_%s_%d", prefix, g.n)
+			var parts []string
+			for _, pp := range ps {
+				parts = append(parts, pp.Name+" "+types.TypeString(pp.Type, g.qualifier))
+			}
+			fmt.Fprintf(&g.b, "func %s(%s) %s { return %s }\n\n", c.FnSym, strings.Join(parts, ", "), types.TypeString(tv.Type, g.qualifier), base)
+			fc.modClauses[i] = c
+		}
 		loops := loopsOf(body)
 		ks := []int{}
 		for k := range fc.LoopInv {
@@ -507,11 +545,15 @@ func generateSpecFile(p *packages.Package, pc *PkgContracts) (string, error) {
 			if pos == token.NoPos {
 				continue
 			}
+			pp := p.Fset.Position(pos)
+			c.SitePos = fmt.Sprintf("%s:%d", pp.Filename, pp.Offset)
 			sc := p.Types.Scope().Innermost(pos)
 			ps, err := g.clauseParams(c.Text, sc, pos, sig, fmt.Sprintf("%s:%d", pc.File, c.Line))
 			if err != nil {
 				return "", err
 			}
+			ps = append(ps, callArgParams(p, body, pos, c.Text)...)
+			sort.Slice(ps, func(i, j int) bool { return ps[i].Name < ps[j].Name })
 			g.emitClause(c, prefix, ps)
 		}
 	}
